@@ -13,7 +13,7 @@ TNext ==
      \/ ev.e = "read" /\ Read(ev.frame)
      \/ ev.e = "send" /\ Send(ev.packet)
      \/ ev.e = "deliver" /\ Deliver(ev.packet, ev.frames)
-     \/ ev.e = "reset" /\ inq' = << >> /\ pending' = << >> /\ wire' = << >> /\ outq' = << >>     \* next scenario
+     \/ ev.e = "reset" /\ inq' = << >> /\ pending' = << >> /\ wire' = << >> /\ outq' = << >> /\ nsent' = 0     \* next scenario (a new talker process)
 TSpec == TInit /\ [][TNext]_<<tvars, l, mem, hb, out, step>>
 Quiescent == (l > Len(Tr) /\ pending = << >> /\ wire = << >>) => outq = inq
 TraceAccepted == TLCGet("stats").diameter - 1 = Len(Tr)
